@@ -29,6 +29,10 @@ RULE_S = ("speed/grade model: the four bundled vehicle models through Interpolat
           "3-10 calls where consecutive calls re-use the same raw numbers under other speed/grade units, repeat a call, or "
           "keep the units and change the numbers, and every call is also asked of a fresh instance built for it alone "
           "(a difference is printed as HISTORY-DEPENDENT in the I line, so I != S); the M line converts per call; "
+          "CONFIG cases: an ICE vehicle built by VehicleBuilder::build from a JSON entry (get_model_record_from_params) for "
+          "every speed-unit x grade-unit pair of the declaration, bounds written in the model's units, judged at the "
+          "CONFIGURED nodes / bounds through consume_energy over one distance unit; NESTED cases: interpolate over a coarse "
+          "interpolate over smartcore, the table expected at the outer nodes is the declared (inner interpolated) model; "
           "the model's predictor is the underlying random forest sampled by the harness exactly as `new` samples it; "
           "bit-exact with the FN model (M line); S = QN checker: the axes have `bins` increasing points from the lower to "
           "the upper bound, never Err, value at the clamped point between the 4 surrounding underlying values, equal to the "
